@@ -472,7 +472,8 @@ impl Bench {
             for n in &nodes {
                 set.insert(NodeIdentifier { id: n.id, mdate: n.mdate, signature: n._signature.clone() });
             }
-            let mut ntis = match peer.svc.filter_existing_node(set).await {
+            // as `synchronise_day` does since /repo ffeda5d: ids that carry a deletion record of the room are not requested
+            let mut ntis = match peer.svc.filter_existing_room_node(room, set).await {
                 Ok(v) => v,
                 Err(_) => vec![],
             };
